@@ -158,8 +158,6 @@ def parseReq (f : List String) : Option Req :=
   | "u32del" :: pairs => (allSome (pairs.map parsePair)).map .u32del
   | ["size", k] => some (.size k)
   | ["hasval", k, v] => v.toNat?.map (.hasVal k)
-  | ["closeidle"] => some .close
-  | ["restart"] => some .close
   | _ => none
 
 /-! ### rendering -/
@@ -254,6 +252,30 @@ structure DState where
 
 def kindOf (s : String) : Kind := if s.startsWith "mem" then .mem else if s.startsWith "p0" then .p0 else .p1
 
+def stepReq (d : DState) (f : List String) : DState × String :=
+  match parseReq f with
+  | none => (d, "bad-op")
+  | some req =>
+    let opNo := d.opNo + 1
+    let now := d.ck.now + opNo
+    let ck : Clock := { d.ck with nows := now :: d.ck.nows }
+    let verb := f.headD ""
+    let o := Model.step d.cfg ieee now d.s req
+    let before := Model.abs d.s
+    let sp := Spec.step ieee now before req
+    let after := Model.abs o.s
+    let dev : Bool :=
+      if d.s.dead then false
+      else match d.pol with
+        | .c06 => decide (sp.2 ≠ o.r) || decide (sp.1 ≠ after)
+        | .c05 => false
+        | .c30 => false
+    let tag := (o.tags.find? (· == Tag.u32delDeadlock)) <|> o.tags.head? <|> d.lastTag
+    let lastTag := match o.tags.head? with | some t => some t | none => d.lastTag
+    let flag := if dev then "\t#F:" ++ d.pid ++ "-" ++ (match tag with | some t => tagId t | none => "unattributed") else ""
+    ({ d with s := o.s, ck := ck, lastTag := lastTag, opNo := opNo }, showResp ck verb o.r ++ flag)
+
+
 def stepLine (d : DState) (line : String) : DState × String :=
   let f := line.splitOn " "
   match f with
@@ -266,28 +288,19 @@ def stepLine (d : DState) (line : String) : DState × String :=
     | ["wait", ms] =>
       if d.s.dead then (d, "skip")
       else ({ d with ck := { d.ck with now := d.ck.now + (ms.toInt?.getD 0) * 1000000 } }, "ok")
-    | _ =>
-      match parseReq f with
-      | none => (d, "bad-op")
-      | some req =>
-        let opNo := d.opNo + 1
-        let now := d.ck.now + opNo
-        let ck : Clock := { d.ck with nows := now :: d.ck.nows }
-        let verb := f.headD ""
-        let o := Model.step d.cfg ieee now d.s req
-        let before := Model.abs d.s
-        let sp := Spec.step ieee d.s.kind now before req
-        let after := Model.abs o.s
-        let dev : Bool :=
-          if d.s.dead then false
-          else match d.pol with
-            | .c06 => decide (sp.2 ≠ o.r) || decide (sp.1 ≠ after)
-            | .c05 => (match req with | .close => d.s.kind != .mem && decide (before ≠ after) | _ => false)
-            | .c30 => false
-        let tag := (o.tags.find? (· == Tag.u32delDeadlock)) <|> o.tags.head? <|> d.lastTag
-        let lastTag := match o.tags.head? with | some t => some t | none => d.lastTag
-        let flag := if dev then "\t#F:" ++ d.pid ++ "-" ++ (match tag with | some t => tagId t | none => "unattributed") else ""
-        ({ d with s := o.s, ck := ck, lastTag := lastTag, opNo := opNo }, showResp ck verb o.r ++ flag)
+    | [verb] =>
+      if verb == "closeidle" || verb == "restart" then
+        if d.s.dead then (d, "skip")
+        else
+          let before := Model.abs d.s
+          let (s', tags) := Model.closeStep d.cfg d.s
+          let after := Model.abs s'
+          let dev := d.pol == .c05 && decide (Spec.close d.s.kind before ≠ after)
+          let tag := tags.head? <|> d.lastTag
+          let flag := if dev then "\t#F:" ++ d.pid ++ "-" ++ (match tag with | some t => tagId t | none => "unattributed") else ""
+          ({ d with s := s', lastTag := (tags.head? <|> d.lastTag) }, "ok" ++ flag)
+      else stepReq d f
+    | _ => stepReq d f
 
 def run (pid : String) (pol : Policy) (args : List String) : IO UInt32 := do
   let kv := parseArgs args
